@@ -76,7 +76,8 @@ def run_components(run, gens, tier, seed, replay, exe, timeout_case=60, label=""
                                                 "gen_index": c.meta.get("gen_index", 0),
                                                 "impl_status": io["status"], "impl_err": io["err"][:6]},
                           found_input=True,
-                          classes=tuple(owner[c.name].input_classes(c)) if hasattr(owner[c.name], "input_classes") else ())
+                          classes=(tuple(owner[c.name].failure_classes(c, io, fails)) if hasattr(owner[c.name], "failure_classes") else
+                                   tuple(owner[c.name].input_classes(c)) if hasattr(owner[c.name], "input_classes") else ()))
             suppressed = len(run.violations) == nviol   # matched a known finding: its lines disagree with the model by definition
         if dis and not suppressed:
             ndis += 1
